@@ -446,3 +446,159 @@ c07_prompt_arm!(c07_prompt_arm_full_run, true, true, true);
 c07_prompt_arm!(c07_prompt_arm_compile_failed, true, true, false);
 c07_prompt_arm!(c07_prompt_arm_unattached, true, false, true);
 c07_prompt_arm!(c07_prompt_arm_unconfigured, false, true, true);
+
+// ---------------------------------------------------------------------------------------------------------
+// Posting a message to a thread (server.rs::thread_post_message from the message append to the response; source slice):
+// one message => exactly one run-spawned frame, naming that message and the session that will run it, written BEFORE
+// the session is spawned (so no frame of the run, its run-ended frame included, can precede it); a refused message
+// spawns nothing; a failed run-spawned append spawns nothing.
+// ---------------------------------------------------------------------------------------------------------
+mod post_message {
+    #![allow(unused)]
+    pub struct World {
+        pub effects: u32,
+        pub message_ok: bool,
+        pub spawned_ok: bool,
+        pub messages: u32,
+        pub message_at: u32,
+        pub run_spawned: u32,
+        pub run_spawned_at: u32,
+        pub run_spawned_ids_ok: bool,
+        pub sessions_created: u32,
+        pub registered: u32,
+        pub spawns: u32,
+        pub spawn_at: u32,
+        pub spawn_link_ok: bool,
+    }
+    #[derive(Clone, Copy)]
+    pub struct ModelUnit;
+    fn is1(s: &str, b: u8) -> bool {
+        s.len() == 1 && s.as_bytes()[0] == b
+    }
+    pub struct ModelStore3(pub *mut World);
+    impl ModelStore3 {
+        pub fn append_message(&self, thread: &String, actor: String, origin: String, content: String) -> Result<String, String> {
+            let w = unsafe { &mut *self.0 };
+            w.effects += 1;
+            core::mem::forget((actor, origin, content));
+            if w.message_ok {
+                w.messages += 1;
+                w.message_at = w.effects;
+                Ok(super::lit("m"))
+            } else {
+                Err(String::new())
+            }
+        }
+        pub fn append_run_spawned(&self, thread: &String, message: &String, session: &String, actor: String, origin: String) -> Result<String, String> {
+            let w = unsafe { &mut *self.0 };
+            w.effects += 1;
+            let ids = is1(thread, b't') && is1(message, b'm') && is1(session, b's') && is1(&actor, b'u') && is1(&origin, b'o');
+            core::mem::forget((actor, origin));
+            if w.spawned_ok {
+                w.run_spawned += 1;
+                w.run_spawned_at = w.effects;
+                w.run_spawned_ids_ok = ids;
+                Ok(String::new())
+            } else {
+                Err(String::new())
+            }
+        }
+    }
+    #[derive(Clone)]
+    pub struct ModelHandle {
+        pub session_id: String,
+    }
+    pub struct ModelEngine(pub *mut World);
+    impl ModelEngine {
+        pub fn create_session(&self) -> ModelHandle {
+            let w = unsafe { &mut *self.0 };
+            w.sessions_created += 1;
+            ModelHandle { session_id: super::lit("s") }
+        }
+        pub fn spawn_session(&self, handle: ModelHandle, content: String, link: Option<crate::continuities::ContinuityRunLink>, _cfg: Option<ModelUnit>) {
+            let w = unsafe { &mut *self.0 };
+            w.effects += 1;
+            w.spawns += 1;
+            w.spawn_at = w.effects;
+            w.spawn_link_ok = match &link {
+                Some(l) => is1(&l.continuity_id, b't') && is1(&l.message_id, b'm') && is1(&l.actor_id, b'u') && is1(&l.origin, b'o') && is1(&handle.session_id, b's'),
+                None => false,
+            };
+            core::mem::forget((handle, content, link));
+        }
+    }
+    pub struct ModelSessions(pub *mut World);
+    pub struct ModelSessionsGuard(*mut World);
+    impl ModelSessions {
+        pub fn lock(&self) -> ModelSessionsGuard {
+            ModelSessionsGuard(self.0)
+        }
+    }
+    impl ModelSessionsGuard {
+        pub fn insert(&mut self, id: String, handle: ModelHandle) {
+            unsafe { (*self.0).registered += 1 };
+            core::mem::forget((id, handle));
+        }
+    }
+    pub struct ModelState {
+        pub engine: ModelEngine,
+        pub sessions: ModelSessions,
+    }
+    // response models
+    pub struct ModelResponse(pub u16);
+    #[derive(Clone, Copy)]
+    pub struct StatusCode(pub u16);
+    impl StatusCode {
+        pub const NOT_FOUND: StatusCode = StatusCode(404);
+        pub const INTERNAL_SERVER_ERROR: StatusCode = StatusCode(500);
+        pub const ACCEPTED: StatusCode = StatusCode(202);
+        pub fn into_response(self) -> ModelResponse {
+            ModelResponse(self.0)
+        }
+    }
+    pub struct Json<T>(pub T);
+    pub struct ThreadPostMessageResponse {
+        pub thread_id: String,
+        pub message_id: String,
+        pub session_id: String,
+    }
+    pub trait IntoResponseM {
+        fn into_response(self) -> ModelResponse;
+    }
+    impl IntoResponseM for (StatusCode, Json<ThreadPostMessageResponse>) {
+        fn into_response(self) -> ModelResponse {
+            let code = (self.0).0;
+            core::mem::forget(self.1);
+            ModelResponse(code)
+        }
+    }
+    include!("/verif/harness/gen/post_message_slice.rs");
+}
+
+#[kani::proof]
+#[kani::unwind(6)]
+#[kani::stub(std::fmt::format, stub_fmt_format)]
+fn c07_post_message_spawns_one_run() {
+    use post_message::*;
+    let mut w = World { effects: 0, message_ok: kani::any(), spawned_ok: kani::any(), messages: 0, message_at: 0, run_spawned: 0, run_spawned_at: 0,
+                        run_spawned_ids_ok: false, sessions_created: 0, registered: 0, spawns: 0, spawn_at: 0, spawn_link_ok: false };
+    let wp: *mut World = &mut w;
+    let state = ModelState { engine: ModelEngine(wp), sessions: ModelSessions(wp) };
+    let r = post_message_part(&ModelStore3(wp), &state, lit("t"), lit("u"), lit("o"), lit("x"), None);
+    let w = unsafe { &*wp };
+    if !w.message_ok {
+        assert!(w.run_spawned == 0 && w.spawns == 0 && r.0 == 404, "a refused message spawned a run");
+    } else if !w.spawned_ok {
+        assert!(w.spawns == 0 && r.0 == 500, "a run whose run-spawned frame could not be written was started");
+    } else {
+        assert!(w.messages == 1 && w.run_spawned == 1, "a posted message does not produce exactly one run-spawned frame");
+        assert!(w.run_spawned_at > w.message_at, "run-spawned frame written before its message");
+        assert!(w.run_spawned_ids_ok, "the run-spawned frame does not name the message just appended / the session created for it");
+        assert!(w.spawns == 1 && w.spawn_at > w.run_spawned_at, "the session is started before its run-spawned frame is on the thread (run frames could precede it)");
+        assert!(w.spawn_link_ok && w.sessions_created == 1 && w.registered == 1, "the started session is not the one the run-spawned frame names / not attached to that message");
+        assert!(r.0 == 202, "accepted message not acknowledged");
+    }
+    kani::cover!(w.message_ok && w.spawned_ok, "message accepted and run spawned");
+    kani::cover!(!w.message_ok, "message refused");
+    core::mem::forget(r);
+}
